@@ -139,9 +139,9 @@ class Module:
         self.relpath = relpath
         self.source = source
         self.tree = ast.fix_missing_locations(Canon().visit(ast.parse(source, filename=str(path))))
-        from .inline import inline_new_helpers, normalise_idioms
+        from .inline import inline_compiled_regexes, inline_new_helpers, normalise_idioms
 
-        self.idioms = normalise_idioms(self.tree)
+        self.idioms = normalise_idioms(self.tree) + inline_compiled_regexes(self.tree)
 
         try:
             self.inlined = inline_new_helpers(self.tree, name)
